@@ -15,7 +15,7 @@ ASSUMPTIONS = ['the detected overlap is whatever find_best_overlap returned (rec
                'end-to-end leg: the harness run_ocr reads one glyph per 8-px column block, so part transcriptions are exact windows']
 N = {'quick': 3000, 'thorough': 150000}
 CLASSES = ['windows', 'noisy_windows', 'unrelated', 'empties', 'single_chars', 'repetitive', 'end_to_end']
-REQUIRED = ['merges_checked', 'steps_checked', 'zero_overlap_steps', 'positive_overlap_steps', 'e2e_lines', 'e2e_split_lines']
+REQUIRED = ['merges_checked', 'steps_checked', 'zero_overlap_steps', 'positive_overlap_steps', 'disjoint_or_empty_steps', 'e2e_lines', 'e2e_split_lines']
 ALPHA = 'abcdefg '
 
 
@@ -135,6 +135,11 @@ def check_steps(parts, result, overlaps_log, mon, info):
             continue
         if o == 0 and cur != prev + part:
             mon.violation('no-overlap-concatenated-unchanged', step)
+        # independent of what the detector reported: neighbours without a single common character (or an empty one) share no overlap
+        if (not prev or not part or not (set(prev) & set(part))):
+            mon.count('disjoint_or_empty_steps')
+            if cur != prev + part:
+                mon.violation('no-overlap-concatenated-unchanged', dict(step, note='neighbours have no character in common (or one is empty), so there is no overlap to remove'))
         if len(cur) != len(prev) + len(part) - o:
             mon.violation('length', step)
         if not cur.startswith(prev[:len(prev) - (o + 1) // 2]):
